@@ -277,6 +277,8 @@ def run_case(case: dict) -> dict:
             o = creation.run_creation(case, os.path.join(root, "a"), trace_hook=holder)
         try:
             trace = o["trace"]
+            if o.get("degenerate_centres"):
+                return dict(verdict="discard", detail="k-means produced a non-finite centre", digest=o["digest"], steps=o["steps"])
             if o["verdict"] != Verdict.COMPLETE or o["outcome"] != "returned":
                 return dict(verdict="discard", detail=f"creation did not return ({o['verdict']}/{o['outcome']} {o.get('exc_type')}): C02/C09 territory",
                             digest=o["digest"], steps=o["steps"])
